@@ -9,7 +9,7 @@ import os, re, shutil, subprocess
 from bbox import Sandbox, Rng, hexs, HOST
 
 NAMES = ["a", "b.txt", "sp ace", "quo'te", "the 'final' draft", "''", "a'b'c.txt", "it\\'s", "x\\", "\\'\\'", 'dq"uote', "back\\slash", "dol$lar", "st*ar", "qm?ark", "-dash", "unié中",
-         "new\nline", "tab\tname", "semi;colon", "amp&ersand", "paren(s)", "a.copia", "x.tmp", "[br]", "~tilde", "#hash", "%p", "$(echo x)", "`bt`"]
+         "notes..old", "v1..v2.diff", "..hidden", "trail..", "new\nline", "tab\tname", "semi;colon", "amp&ersand", "paren(s)", "a.copia", "x.tmp", "[br]", "~tilde", "#hash", "%p", "$(echo x)", "`bt`"]
 DIRS = ["", "d", "d/e", "sp dir", "q'd", "q'd'q", "d.d", "-x"]
 EXCL = ["*.tmp", "d", "d/*", "sp*", "*'*", "a", "?", "x.tmp/", "*\\*", "d/e/", "b.txt"]
 CONTENT = [b"", b"x", b"hello\n", b"A" * 1000, b"\x00\x01\x02", b"line1\nline2\n", bytes(range(256)) * 20]
